@@ -131,6 +131,16 @@ def catalog(tier="quick"):
                             "rules": ["if class is True then def is False", "if class is pass or class is _x1 then def is None"]}], "distinct": [("n0", "n1")]}
     out.append(("names/keywords", make_names))
 
+    def make_descriptions(sym):
+        # descriptions are free text up to the end of the line: characters that some string functions treat as line boundaries
+        # (form feed, vertical tab, the separators FS/GS/RS, NEL, U+2028/9), tabs, colons and runs of blanks must survive
+        d = base(name="text", description="page one\x0cpage two: still\tthe  same line")
+        d["inputs"][0]["description"] = "first\x0bsecond\x1cthird\x1dfourth\x1efifth"
+        d["outputs"][0]["description"] = "left\x85right\u2028below\u2029end"
+        d["blocks"][0]["description"] = "if X is a then O is b (not a rule): key: value"
+        return d
+    out.append(("descriptions/line-boundary-characters", make_descriptions))
+
     def make_weights(sym):
         return base(blocks=[{"name": "rb", "conjunction": "Minimum", "disjunction": "Maximum", "implication": "Minimum", "activation": ("General",),
                              "rules": ["if X is a then O is a", "if X is b then O is b", "if X is not b then O is a"]}],
